@@ -32,6 +32,7 @@ pub enum Error {
     ExpectBinOpToken,
     DivideByZero,
     NumberOverflow,
+    InvalidShiftCount(i64),
 }
 
 #[cfg(not(tarpaulin_include))]
@@ -71,6 +72,7 @@ impl fmt::Display for Error {
             ExpectBinOpToken => write!(f, "expect bin op token"),
             DivideByZero => write!(f, "divide by zero"),
             NumberOverflow => write!(f, "number overflow"),
+            InvalidShiftCount(n) => write!(f, "invalid shift count: {}", n),
         }
     }
 }
